@@ -37,5 +37,17 @@ int main(int argc, char** argv) {
     bool copy_moved = cur(b) != a0; bool orig_untouched = cur(a) == a0;
     drain(a); bool orig_moves_itself = cur(a) != a0;
     report("copy.pending-event", copy_moved && orig_untouched && orig_moves_itself, "C15", "a=" + std::to_string(cur(a)) + " b=" + std::to_string(cur(b)) + " copy_moved=" + std::to_string(copy_moved) + " orig_untouched=" + std::to_string(orig_untouched)); }
+#if IS_MP11
+  // copy taken after a LIMITED drain (the processed occurrence is still in the pool, marked): the copy must not replay it
+  for (int assign = 0; assign < 2; ++assign) {
+    M a; a.start(); a.enqueue_event(go()); a.enqueue_event(go()); a.enqueue_event(back_());
+    g_actions = 0; size_t n1 = a.process_event_pool(1);           // S0 -> S1, two occurrences pending
+    const M& ca = a; M b(ca); M c; c.start(); if (assign) c = ca; M& copy = assign ? c : b;
+    g_actions = 0; size_t nc = copy.process_event_pool(); int copy_actions = g_actions, copy_state = cur(copy);
+    g_actions = 0; size_t na = a.process_event_pool(); int orig_actions = g_actions;
+    report(std::string(assign ? "assign" : "copy") + ".after-limited-drain", n1 == 1 && nc == na && copy_actions == orig_actions && copy_state == cur(a) && na == 2, "C15,C20",
+           "copy drained " + std::to_string(nc) + " (" + std::to_string(copy_actions) + " actions), original " + std::to_string(na) + " (" + std::to_string(orig_actions) + " actions)");
+  }
+#endif
   return finish();
 }
